@@ -57,18 +57,6 @@ class VecMulti:
 
     __rmul__ = __mul__
 
-    def __iadd__(self, o):
-        for c in self.components:
-            v = getattr(self, c)
-            v += getattr(o, c)
-        return self
-
-    def __isub__(self, o):
-        for c in self.components:
-            v = getattr(self, c)
-            v -= getattr(o, c)
-        return self
-
     def total(self):
         r = Vec()
         for c in self.components:
@@ -236,16 +224,6 @@ class VecP:
         return self._map2(o, lambda a, b: a * b)
 
     __rmul__ = __mul__
-
-    def __iadd__(self, o):
-        self.pos += o.pos
-        self.vel += o.vel
-        return self
-
-    def __isub__(self, o):
-        self.pos -= o.pos
-        self.vel -= o.vel
-        return self
 
     def __abs__(self):
         return abs(self.pos) + abs(self.vel)
